@@ -6,6 +6,7 @@ import RedisVerif.Lemmas.Shards
 import RedisVerif.Lemmas.ShardsStr
 import RedisVerif.Lemmas.ActorsKey
 import RedisVerif.Props.C03
+import RedisVerif.Model.ShardsClock
 
 /-!
 # C02 — Concurrent clients on one node see a linearizable per-key history
@@ -119,6 +120,56 @@ theorem pooled_slot_unreferenced {pool : Nat} {s : Sys σ Req Resp} (hr : Reach 
   exact (hi.msg i m hm).2.2.2.1
 
 end system
+
+/-! ## time: deadlines, and a clock in the specification -/
+
+section timed
+open Shards.Clock
+
+/-- a timed single-key request: (virtual time of the invocation, (key, operation)) -/
+abbrev TReq := Nat × (Key × KOp)
+
+/-- the timed sequential specification used by the checker: `specAt` of the per-key spec -/
+def specStepT : NMap Entry → TReq → NMap Entry × R1 := specAt specKeyAt
+
+abbrev THistory := List (Ev TReq R1)
+
+/-- the verified per-key checker on timed histories -/
+def checkLinT (h : THistory) : Bool := Actors.checkLin specStepT (fun p => p.2.1) [] h
+
+theorem lin_check_timed_sound (h : THistory) (hc : checkLinT h = true) :
+    PerKeyLinearizable specStepT (fun p => p.2.1) [] h :=
+  Actors.lin_check_sound specStepT (fun p => p.2.1) [] h hc
+
+/-- **the timed variant of `linearizable`**: clients stamp every message with the virtual time of
+    its invocation and the shard adopts it before executing (`execNT … allCarry`); every finite
+    execution of the actor system is linearizable w.r.t. that timed executor -/
+theorem linearizable_timed (R : Routes) (route : Nat × TCmd → Nat) {pool : Nat}
+    {s : Sys (List TShard) (Nat × TCmd) (List R1)}
+    (hr : Reach (specAt (fun now st c => execNT R allCarry now st c)) route (tinit R.N) pool s) :
+    ValidLog (specAt (fun now st c => execNT R allCarry now st c)) (tinit R.N) s.log ∧
+    Linearizable (specAt (fun now st c => execNT R allCarry now st c)) (tinit R.N) (history s.log) :=
+  linearizable _ route _ hr
+
+/-- the seed C02-pooled-get-no-sweep-and-no-probe, as a history: `SET k v PX 100` invoked and
+    answered at t = 0; a read of `k` invoked at t = 500 answers `v` -/
+def staleReadOps : List (Nat × TReq × R1) :=
+  [(0, (0, (7, .setPx [118] 100)), .ok), (1, (500, (7, .get)), .bulk [118])]
+
+/-- **a read invoked after the deadline that returns the value is not linearizable**: the
+    operation would have to take effect before its own invocation -/
+theorem stale_read_not_linearizable :
+    ¬ Linearizable specStepT ([] : NMap Entry) (seqHist staleReadOps) := by
+  intro h
+  have := seq_lin_legal specStepT [] staleReadOps h
+  exact absurd this.2.1 (by decide)
+
+/-- the checker rejects it, and accepts the same history with the correct reply -/
+example : checkLinT (seqHist staleReadOps) = false := by decide
+example : checkLinT (seqHist [(0, (0, (7, .setPx [118] 100)), .ok), (1, (99, (7, .get)), .bulk [118]),
+    (2, (100, (7, .get)), .nil)]) = true := by decide
+
+end timed
 
 /-! ## the discipline matters: abandoning with release (the seeded RAII guard) -/
 
